@@ -1,3 +1,503 @@
-(* C16 -- proofs about the strict grammar model: print/parse round trip on the documented fragment. *)
+(* C16 -- proofs about the strict grammar model: print/parse round trip on the phrase fragment. *)
 From TV Require Import Base.Prelude Text.BinOpFold Text.Grammar Generated.Constants.
 Local Open Scope N_scope.
+
+(* closed comparisons of character codes *)
+Ltac ncmp :=
+  repeat match goal with
+         | |- context [N.eqb ?a ?b] =>
+             let v := eval vm_compute in (N.eqb a b) in
+             match v with true => idtac | false => idtac end;
+             change (N.eqb a b) with v
+         end.
+Ltac unfold_chars :=
+  unfold BSL, DQ, SQ, LP, RP, STAR, PLUS, MINUS, DOT, SLASH, COLON, LT, EQ, GT, LBR, RBR, CARET, BQ, LCB, RCB, TILDE,
+         kw_AND, kw_OR, kw_NOT, kw_IN, kw_TO in *.
+
+Definition nms (s : str) : bool := match s with [] => true | c :: _ => negb (is_ms c) end.
+Definition follow_ok (s : str) : bool := match s with [] => true | c :: _ => is_ms c || (c =? 41) end.
+Definition end_ok (s : str) : bool := match s with [] => true | c :: _ => c =? 41 end.
+
+Lemma skip_ms_app w rest : ws0 w = true -> nms rest = true -> skip_ms (w ++ rest) = rest.
+Proof.
+  intros Hw Hr. induction w as [|c w IH]; cbn [app].
+  - destruct rest as [|c r]; [reflexivity|]. cbn [skip_ms]. cbn [nms] in Hr. now destruct (is_ms c).
+  - cbn [ws0 forallb] in Hw. apply andb_true_iff in Hw as [Hc Hw]. cbn [skip_ms]. rewrite Hc. now apply IH.
+Qed.
+
+Lemma quoted_body_ok q body rest :
+  wf_body q body = true -> quoted_body (quote_char q) (body ++ quote_char q :: rest) = Some (body, rest).
+Proof.
+  intros H. induction body as [|c b IH]; cbn [app quoted_body].
+  - destruct q; cbn [quote_char]; unfold_chars; ncmp; reflexivity.
+  - cbn [wf_body forallb] in H. apply andb_true_iff in H as [Hc Hb]. apply andb_true_iff in Hc as [H1 H2].
+    apply negb_true_iff in H1, H2. rewrite H1, H2. fold (wf_body q b) in Hb. now rewrite (IH Hb).
+Qed.
+
+Lemma slop_none rest : follow_ok rest = true -> slop_or_prefix rest = (0, false, rest).
+Proof.
+  destruct rest as [|c r]; [reflexivity|]. cbn [follow_ok slop_or_prefix]. intros H.
+  assert (H1 : (c =? STAR) = false).
+  { destruct (c =? STAR) eqn:E; [|reflexivity]. apply N.eqb_eq in E. subst c. vm_compute in H. discriminate. }
+  assert (H2 : (c =? TILDE) = false).
+  { destruct (c =? TILDE) eqn:E; [|reflexivity]. apply N.eqb_eq in E. subst c. vm_compute in H. discriminate. }
+  now rewrite H1, H2.
+Qed.
+Lemma boost_none rest : follow_ok rest = true -> boost_p rest = None.
+Proof.
+  destruct rest as [|c r]; [reflexivity|]. cbn [follow_ok boost_p]. intros H.
+  destruct (c =? CARET) eqn:E; [|reflexivity]. apply N.eqb_eq in E. subst c. vm_compute in H. discriminate.
+Qed.
+
+Lemma alts_fail_first c t :
+  is_ms c = false -> in_tab c [GT; LT; LCB; LBR; 73; STAR; SLASH] = false ->
+  range (c :: t) = None /\ set_p (c :: t) = None /\ exists_p (c :: t) = None /\ regex_p (c :: t) = None.
+Proof.
+  intros Hms Ht. unfold in_tab in Ht. cbn [existsb] in Ht.
+  repeat (apply orb_false_iff in Ht; destruct Ht as [?H Ht]).
+  repeat split.
+  - unfold range, elastic_range, lower_to_upper. cbn [skip_ms]. rewrite Hms. cbn [strip_prefix].
+    rewrite (N.eqb_sym GT c), (N.eqb_sym LT c), H, H0, H1, H2. reflexivity.
+  - unfold set_p. cbn [skip_ms]. rewrite Hms. unfold kw_IN. cbn [strip_prefix]. rewrite (N.eqb_sym 73 c), H3. reflexivity.
+  - unfold exists_p. cbn [skip_ms]. rewrite Hms, H4. reflexivity.
+  - unfold regex_p. rewrite H5. reflexivity.
+Qed.
+
+Lemma phrase_leaf astp leafp q body rest :
+  wf_body q body = true -> follow_ok rest = true ->
+  leaf_body astp leafp (quote_char q :: body ++ quote_char q :: rest)
+  = ROk (Leaf (LLit None body (quote_delim q) 0 false)) rest.
+Proof.
+  intros Hb Hr.
+  assert (Ht : term_or_phrase (quote_char q :: body ++ quote_char q :: rest) = Some (LLit None body (quote_delim q) 0 false, rest)).
+  { unfold term_or_phrase, simple_term.
+    destruct q; cbn [quote_char negative_number]; unfold_chars; ncmp; cbn [quote_char].
+    - pose proof (quoted_body_ok QD body rest Hb) as Hq. cbn [quote_char] in Hq. unfold DQ in Hq. rewrite Hq.
+      rewrite (slop_none rest Hr). reflexivity.
+    - pose proof (quoted_body_ok QS body rest Hb) as Hq. cbn [quote_char] in Hq. unfold SQ in Hq. rewrite Hq.
+      rewrite (slop_none rest Hr). reflexivity. }
+  unfold leaf_body.
+  destruct q; cbn [quote_char] in *; unfold_chars; ncmp; cbn [andb strip_prefix]; ncmp.
+  all: unfold literal, field_name; unfold special, in_tab; unfold_chars.
+  all: set (sp := existsb _ QG_SPECIAL_CHARS); vm_compute in sp; subst sp; cbn [negb andb]; ncmp.
+  all: unfold leaf_alts.
+  - destruct (alts_fail_first 34 (body ++ 34 :: rest) eq_refl eq_refl) as (-> & -> & -> & ->).
+    unfold DQ in Ht. rewrite Ht. reflexivity.
+  - destruct (alts_fail_first 39 (body ++ 39 :: rest) eq_refl eq_refl) as (-> & -> & -> & ->).
+    unfold SQ in Ht. rewrite Ht. reflexivity.
+Qed.
+
+Lemma leaf_fail_end astp leafp rest : end_ok rest = true -> leaf_body astp leafp rest = RFail.
+Proof.
+  destruct rest as [|c t]; [reflexivity|]. cbn [end_ok]. intros H. apply N.eqb_eq in H. subst c.
+  unfold leaf_body. unfold_chars; ncmp; cbn [andb strip_prefix]; ncmp.
+  unfold literal, field_name; unfold special, in_tab; unfold_chars.
+  set (sp := existsb _ QG_SPECIAL_CHARS); vm_compute in sp; subst sp; cbn [negb andb]; ncmp.
+  unfold leaf_alts.
+  destruct (alts_fail_first 41 t eq_refl eq_refl) as (-> & -> & -> & ->).
+  unfold term_or_phrase, simple_term. cbn [negative_number]. unfold_chars; ncmp.
+  unfold word. unfold_chars; ncmp. unfold word_char, esc, in_tab.
+  set (e := existsb _ QG_ESCAPE_IN_WORD); vm_compute in e; subst e. rewrite andb_false_r. cbn [andb].
+  unfold term_group, field_name; unfold special, in_tab; unfold_chars.
+  set (sp := existsb _ QG_SPECIAL_CHARS); vm_compute in sp; subst sp; cbn [negb andb]; ncmp. reflexivity.
+Qed.
+
+(* ------------------------------------------------------------------ the fragment *)
+Definition mem := (str * option binop * str * option occur * cq)%type.
+Fixpoint print_rest (rest : list mem) : str :=
+  match rest with
+  | [] => []
+  | (sep, op, w, o, x) :: r => sep ++ op_str op ++ w ++ occ_str o ++ print x ++ print_rest r
+  end.
+Fixpoint norm_rest (rest : list mem) : list (@triple leaf) :=
+  match rest with
+  | [] => []
+  | (_, op, _, o, x) :: r => (op, o, norm x) :: norm_rest r
+  end.
+Lemma print_seq lead o1 x1 rest trail :
+  print (CSeq lead o1 x1 rest trail) = lead ++ occ_str o1 ++ print x1 ++ print_rest rest ++ trail.
+Proof.
+  cbn [print]. do 3 f_equal.
+Qed.
+Lemma norm_seq lead o1 x1 rest trail :
+  norm (CSeq lead o1 x1 rest trail) = finalize (unrev (scan [] ((None, o1, norm x1) :: norm_rest rest))).
+Proof.
+  cbn [norm]. do 4 f_equal.
+Qed.
+
+Definition occ_ok (o : option occur) : bool := match o with Some Should => false | _ => true end.
+Definition mem_ok (pfx : cq -> bool) (m : mem) : bool :=
+  match m with
+  | (sep, op, w, o, x) =>
+      ws1 sep && ws0 w && (match op with None => is_nil w | Some _ => true end) && occ_ok o && negb (is_seq x) && pfx x
+  end.
+(* phrases (either quote kind), parentheses, and sequences of them with + / -, AND / OR, any layout *)
+Fixpoint pf (c : cq) : bool :=
+  match c with
+  | CLit None (CPhrase q b SNone) => wf_body q b
+  | CParen q => is_seq q && pf q
+  | CSeq lead o1 x1 rest trail =>
+      ws0 lead && occ_ok o1 && negb (is_seq x1) && pf x1 &&
+      (fix go (rest : list mem) : bool := match rest with [] => true | m :: r => mem_ok pf m && go r end) rest && ws0 trail
+  | _ => false
+  end.
+Fixpoint cdepth (c : cq) : nat :=
+  match c with
+  | CParen q => S (cdepth q)
+  | CSeq _ _ x1 rest _ =>
+      S ((fix go (rest : list mem) : nat := match rest with [] => cdepth x1 | m :: r => Nat.max (cdepth (snd m)) (go r) end) rest)
+  | _ => 1%nat
+  end.
+
+Definition head_quote_or_paren (s : str) : Prop :=
+  exists c t, s = c :: t /\ (c = 34 \/ c = 39 \/ c = 40).
+Lemma atom_head x : pf x = true -> is_seq x = false -> head_quote_or_paren (print x).
+Proof.
+  destruct x as [[[n w]|] l| | | | | |]; cbn [pf is_seq]; try discriminate.
+  - destruct l as [| |q b sp| | | |]; try discriminate. destruct sp; try discriminate. intros _ _.
+    cbn [print print_leaf app]. destruct q; eexists; eexists; (split; [reflexivity|]); cbn; auto.
+  - intros _ _. cbn [print]. eexists; eexists; (split; [reflexivity|]); auto.
+Qed.
+
+Section Level.
+  Variable leafp : str -> res uast.
+  Hypothesis leafp_end : forall tail, end_ok tail = true -> leafp tail = RFail.
+
+  Lemma occur_leaf_ok o x rest :
+    occ_ok o = true -> head_quote_or_paren (print x) -> follow_ok rest = true ->
+    leafp (print x ++ rest) = ROk (norm x) rest ->
+    occur_leaf leafp (occ_str o ++ print x ++ rest) = ROk (o, norm x) rest.
+  Proof.
+    intros Ho (c & t & Hp & Hc) Hr Hl. unfold occur_leaf, boosted_leaf.
+    destruct o as [[]|]; try discriminate; cbn [occ_str app occur_symbol]; unfold_chars; ncmp; cbv iota beta.
+    - rewrite Hl, (boost_none rest Hr). reflexivity.
+    - rewrite Hl, (boost_none rest Hr). reflexivity.
+    - rewrite Hp in *. cbn [app occur_symbol]. unfold_chars.
+      assert (H1 : (c =? 45) = false) by (destruct Hc as [-> | [-> | ->]]; reflexivity).
+      assert (H2 : (c =? 43) = false) by (destruct Hc as [-> | [-> | ->]]; reflexivity).
+      rewrite H1, H2. cbv iota beta. cbn [app] in Hl. rewrite Hl, (boost_none rest Hr). reflexivity.
+  Qed.
+
+  Definition body (m : mem) : str :=
+    match m with (_, op, w, o, x) => op_str op ++ w ++ occ_str o ++ print x end.
+  Definition tri (m : mem) : @triple leaf := match m with (_, op, _, o, x) => (op, o, norm x) end.
+  Fixpoint after (ms : list mem) (trail tail : str) : str :=
+    match ms with
+    | [] => trail ++ tail
+    | m :: r => fst (fst (fst (fst m))) ++ body m ++ after r trail tail
+    end.
+  Lemma after_eq ms trail tail : print_rest ms ++ trail ++ tail = after ms trail tail.
+  Proof.
+    induction ms as [|[[[[sep op] w] o] x] r IH]; [reflexivity|].
+    cbn [print_rest after body fst]. rewrite <- IH. now rewrite <- !app_assoc.
+  Qed.
+
+  Definition mem_leaf_ok (m : mem) : Prop :=
+    forall rest, follow_ok rest = true -> leafp (print (snd m) ++ rest) = ROk (norm (snd m)) rest.
+
+  Lemma nms_head c t : (c = 34 \/ c = 39 \/ c = 40 \/ c = 43 \/ c = 45 \/ c = 65 \/ c = 79) -> nms (c :: t) = true.
+  Proof. intros H. cbn [nms]. repeat (destruct H as [-> | H]; [reflexivity|]). now subst. Qed.
+
+  Lemma body_head m : mem_ok pf m = true -> exists c t, body m = c :: t /\ (c = 34 \/ c = 39 \/ c = 40 \/ c = 43 \/ c = 45 \/ c = 65 \/ c = 79).
+  Proof.
+    destruct m as [[[[sep op] w] o] x]. cbn [mem_ok body]. intros H.
+    repeat (apply andb_true_iff in H; destruct H as [H ?H]).
+    apply negb_true_iff in H1. destruct (atom_head x H0 H1) as (c & t & Hp & Hc).
+    destruct op as [[]|].
+    - cbn. eexists; eexists; split; [reflexivity|]. auto 10.
+    - cbn. eexists; eexists; split; [reflexivity|]. auto 10.
+    - destruct w; [|discriminate]. cbn [op_str app]. destruct o as [[]|]; try discriminate; cbn [occ_str app].
+      + eexists; eexists; split; [reflexivity|]. auto 10.
+      + eexists; eexists; split; [reflexivity|]. auto 10.
+      + rewrite Hp. eexists; eexists; split; [reflexivity|]. destruct Hc as [-> | [-> | ->]]; auto 10.
+  Qed.
+
+  Lemma follow_after ms trail tail :
+    ws0 trail = true -> end_ok tail = true -> Forall (fun m => mem_ok pf m = true) ms ->
+    follow_ok (after ms trail tail) = true.
+  Proof.
+    intros Ht He Hm. destruct ms as [|m r]; cbn [after].
+    - destruct trail as [|c t]; cbn [app].
+      + destruct tail as [|c t]; [reflexivity|]. cbn [follow_ok end_ok] in *. now rewrite He, orb_true_r.
+      + cbn [ws0 forallb] in Ht. apply andb_true_iff in Ht as [Hc _]. cbn [follow_ok]. now rewrite Hc.
+    - inversion Hm as [|? ? Hm1 _]; subst. destruct m as [[[[sep op] w] o] x]. cbn [fst mem_ok] in *.
+      repeat (apply andb_true_iff in Hm1; destruct Hm1 as [Hm1 ?H]).
+      pose proof Hm1 as Hs. destruct sep as [|c s]; [cbn in *; congruence|].
+      cbn [ws0 forallb] in Hs. apply andb_true_iff in Hs as [Hc _]. cbn [app follow_ok]. now rewrite Hc.
+  Qed.
+
+  Lemma skip_after ms trail tail :
+    ws0 trail = true -> end_ok tail = true -> Forall (fun m => mem_ok pf m = true) ms ->
+    skip_ms (after ms trail tail) = match ms with [] => tail | m :: r => body m ++ after r trail tail end.
+  Proof.
+    intros Ht He Hm. destruct ms as [|m r]; cbn [after].
+    - apply skip_ms_app; [exact Ht|]. destruct tail as [|c t]; [reflexivity|]. cbn [end_ok nms] in *.
+      apply N.eqb_eq in He. now subst.
+    - inversion Hm as [|? ? Hm1 _]; subst. destruct (body_head m Hm1) as (c & t & Hb & Hc).
+      destruct m as [[[[sep op] w] o] x]. cbn [fst mem_ok] in *.
+      repeat (apply andb_true_iff in Hm1; destruct Hm1 as [Hm1 ?H]).
+      apply skip_ms_app; [exact Hm1|]. rewrite Hb. cbn [app]. now apply nms_head.
+  Qed.
+
+  Lemma operand_leaf_ok m rest :
+    mem_ok pf m = true -> mem_leaf_ok m -> follow_ok rest = true ->
+    operand_leaf leafp (body m ++ rest) = ROk (tri m) (skip_ms rest).
+  Proof.
+    destruct m as [[[[sep op] w] o] x]. intros Hm Hl Hr. pose proof Hm as Hm'. cbn [mem_ok] in Hm.
+    repeat (apply andb_true_iff in Hm; destruct Hm as [Hm ?H]).
+    apply negb_true_iff in H0. pose proof (atom_head x H H0) as Hh.
+    unfold mem_leaf_ok in Hl. cbn [snd] in Hl.
+    assert (Hol := occur_leaf_ok o x rest H1 Hh Hr (Hl rest Hr)).
+    assert (Hn : nms (occ_str o ++ print x ++ rest) = true).
+    { destruct Hh as (c & t & Hp & Hc). destruct o as [[]|]; try discriminate; cbn [occ_str app]; try reflexivity.
+      rewrite Hp. cbn [app]. apply nms_head. destruct Hc as [-> | [-> | ->]]; auto 10. }
+    unfold operand_leaf, body, tri.
+    replace ((op_str op ++ w ++ occ_str o ++ print x) ++ rest) with (op_str op ++ w ++ (occ_str o ++ print x ++ rest))
+      by (now rewrite <- !app_assoc).
+    destruct op as [[]|].
+    - cbn [op_str app]. unfold binary_operand, kw_OR, kw_AND. cbn [app strip_prefix]. ncmp. cbv iota beta.
+      rewrite (skip_ms_app w _ H3 Hn). rewrite Hol. reflexivity.
+    - cbn [op_str app]. unfold binary_operand, kw_OR, kw_AND. cbn [app strip_prefix]. ncmp. cbv iota beta.
+      rewrite (skip_ms_app w _ H3 Hn). rewrite Hol. reflexivity.
+    - destruct w; [|discriminate]. cbn [op_str app].
+      assert (Hhd : exists c t, occ_str o ++ print x = c :: t /\ (c = 34 \/ c = 39 \/ c = 40 \/ c = 43 \/ c = 45)).
+      { destruct Hh as (c & t & Hp & Hc). destruct o as [[]|]; try discriminate; cbn [occ_str app].
+        - eexists; eexists; split; [reflexivity|]. auto 10.
+        - eexists; eexists; split; [reflexivity|]. auto 10.
+        - rewrite Hp. eexists; eexists; split; [reflexivity|]. destruct Hc as [-> | [-> | ->]]; auto 10. }
+      destruct Hhd as (c & t & Hb & Hc).
+      assert (Hbo : binary_operand ((occ_str o ++ print x) ++ rest) = (None, (occ_str o ++ print x) ++ rest)).
+      { rewrite Hb. cbn [app]. unfold binary_operand, kw_AND, kw_OR. cbn [app strip_prefix].
+        assert (E1 : (65 =? c) = false) by (repeat (destruct Hc as [-> | Hc]; [reflexivity|]); subst; reflexivity).
+        assert (E2 : (79 =? c) = false) by (repeat (destruct Hc as [-> | Hc]; [reflexivity|]); subst; reflexivity).
+        rewrite E1, E2. reflexivity. }
+      rewrite <- app_assoc in Hbo. rewrite Hbo.
+      assert (Hs : skip_ms (occ_str o ++ print x ++ rest) = occ_str o ++ print x ++ rest).
+      { apply (skip_ms_app [] _ eq_refl Hn). }
+      rewrite Hs, Hol. reflexivity.
+  Qed.
+
+  Lemma operand_fail_end tail : end_ok tail = true -> operand_leaf leafp tail = RFail.
+  Proof.
+    intros He. unfold operand_leaf, occur_leaf, boosted_leaf.
+    destruct tail as [|c t].
+    - cbn. now rewrite (leafp_end [] eq_refl).
+    - cbn [end_ok] in He. apply N.eqb_eq in He. subst c.
+      unfold binary_operand, kw_AND, kw_OR. cbn [app strip_prefix]. ncmp. cbv iota beta.
+      cbn [skip_ms]. replace (is_ms 41) with false by reflexivity. cbn [occur_symbol]. unfold_chars. ncmp. cbv iota beta.
+      now rewrite (leafp_end (41 :: t) eq_refl).
+  Qed.
+
+  Lemma loop_ok r : forall m n trail tail,
+    (length r + 2 <= n)%nat -> ws0 trail = true -> end_ok tail = true ->
+    Forall (fun m => mem_ok pf m = true) (m :: r) -> Forall mem_leaf_ok (m :: r) ->
+    many_operands leafp n (body m ++ after r trail tail) = ROk (tri m :: map tri r) tail.
+  Proof.
+    induction r as [|m2 r IH]; intros m n trail tail Hn Ht He Hm Hl.
+    - destruct n as [|[|n]]; cbn [length] in Hn; try lia.
+      inversion Hm as [|? ? Hm1 _]; inversion Hl as [|? ? Hl1 _]; subst.
+      cbn [many_operands]. rewrite (operand_leaf_ok m _ Hm1 Hl1 (follow_after [] trail tail Ht He (Forall_nil _))).
+      rewrite (skip_after [] trail tail Ht He (Forall_nil _)).
+      rewrite (operand_fail_end tail He). reflexivity.
+    - destruct n as [|n]; cbn [length] in Hn; try lia.
+      inversion Hm as [|? ? Hm1 Hm2]; inversion Hl as [|? ? Hl1 Hl2]; subst.
+      cbn [many_operands]. rewrite (operand_leaf_ok m _ Hm1 Hl1 (follow_after (m2 :: r) trail tail Ht He Hm2)).
+      rewrite (skip_after (m2 :: r) trail tail Ht He Hm2).
+      rewrite (IH m2 n trail tail ltac:(lia) Ht He Hm2 Hl2). reflexivity.
+  Qed.
+
+  Lemma after_len r trail tail : Forall (fun m => mem_ok pf m = true) r -> (length r <= length (after r trail tail))%nat.
+  Proof.
+    induction 1 as [|m r Hm _ IH]; cbn [length after]; [lia|].
+    destruct (body_head m Hm) as (c & t & Hb & _). rewrite !app_length, Hb. cbn [length]. lia.
+  Qed.
+
+  (* ast on a printed sequence *)
+  Lemma ast_seq_ok lead o1 x1 rest trail tail :
+    ws0 lead = true -> occ_ok o1 = true -> pf x1 = true -> is_seq x1 = false ->
+    (forall r, follow_ok r = true -> leafp (print x1 ++ r) = ROk (norm x1) r) ->
+    ws0 trail = true -> end_ok tail = true ->
+    Forall (fun m => mem_ok pf m = true) rest -> Forall mem_leaf_ok rest ->
+    ast_body leafp (print (CSeq lead o1 x1 rest trail) ++ tail) = ROk (norm (CSeq lead o1 x1 rest trail)) tail.
+  Proof.
+    intros Hlead Ho Hpf Hns Hx Ht He Hm Hl.
+    rewrite print_seq, norm_seq. unfold ast_body.
+    replace ((lead ++ occ_str o1 ++ print x1 ++ print_rest rest ++ trail) ++ tail)
+      with (lead ++ (occ_str o1 ++ print x1 ++ after rest trail tail))
+      by (rewrite <- after_eq; now rewrite <- !app_assoc).
+    pose proof (atom_head x1 Hpf Hns) as Hh.
+    assert (Hn : nms (occ_str o1 ++ print x1 ++ after rest trail tail) = true).
+    { destruct Hh as (c & t & Hp & Hc). destruct o1 as [[]|]; try discriminate; cbn [occ_str app]; try reflexivity.
+      rewrite Hp. cbn [app]. apply nms_head. destruct Hc as [-> | [-> | ->]]; auto 10. }
+    rewrite (skip_ms_app lead _ Hlead Hn).
+    pose proof (follow_after rest trail tail Ht He Hm) as Hf.
+    rewrite (occur_leaf_ok o1 x1 _ Ho Hh Hf (Hx _ Hf)). cbn [fst snd].
+    pose proof (skip_after rest trail tail Ht He Hm) as Hsk.
+    destruct rest as [|m r].
+    - (* single member *)
+      rewrite Hsk.
+      replace (finalize (unrev (scan [] ((None, o1, norm x1) :: norm_rest []))))
+        with (if is_mustnot o1 then unary MustNot (norm x1) else norm x1)
+        by (destruct o1 as [[]|]; reflexivity).
+      unfold ms1. cbn [after] in *. destruct (trail ++ tail) as [|c t] eqn:E; [now subst|].
+      destruct (is_ms c) eqn:Ec; [|reflexivity].
+      cbn [skip_ms] in Hsk. rewrite Ec in Hsk. rewrite Hsk.
+      destruct (length tail) eqn:El; cbn [many_operands]; rewrite (operand_fail_end tail He); reflexivity.
+    - inversion Hm as [|? ? Hm1 Hm2]; subst.
+      assert (Hms1 : ms1 (after (m :: r) trail tail) = Some (body m ++ after r trail tail)).
+      { unfold ms1. cbn [after]. destruct m as [[[[sep op] w] o] x]. cbn [fst].
+        pose proof Hm1 as Hm1'. cbn [mem_ok] in Hm1'. repeat (apply andb_true_iff in Hm1'; destruct Hm1' as [Hm1' ?H]).
+        destruct sep as [|c s]; [cbn in *; congruence|]. cbn [app]. cbn [ws0 forallb] in Hm1'.
+        apply andb_true_iff in Hm1' as [Hc Hs]. rewrite Hc.
+        cbn [after fst skip_ms app] in Hsk. rewrite Hc in Hsk. rewrite Hsk. reflexivity. }
+      rewrite Hms1.
+      assert (Hlen : (length r + 2 <= S (length (body m ++ after r trail tail)))%nat).
+      { destruct (body_head m Hm1) as (c & t & Hb & _). pose proof (after_len r trail tail Hm2).
+        rewrite app_length, Hb. cbn [length]. lia. }
+      rewrite (loop_ok r m _ trail tail Hlen Ht He Hm Hl).
+      rewrite aggregate_binary_eq. cbn [fst snd norm_rest map].
+      replace (skip_ms tail) with tail by (destruct tail as [|c t]; [reflexivity|]; cbn [end_ok] in He; apply N.eqb_eq in He; now subst).
+      do 3 f_equal. f_equal.
+      clear. induction r as [|[[[[sep op] w] o] x] r IH]; [destruct m as [[[[? ?] ?] ?] ?]; reflexivity|].
+      destruct m as [[[[? ?] ?] ?] ?]. cbn [norm_rest map tri] in *. f_equal. injection IH as IH. now rewrite IH.
+  Qed.
+End Level.
+
+Lemma cdepth_pos c : (1 <= cdepth c)%nat.
+Proof. destruct c; cbn [cdepth]; lia. Qed.
+
+Lemma pf_seq_inv lead o1 x1 rest trail :
+  pf (CSeq lead o1 x1 rest trail) = true ->
+  ws0 lead = true /\ occ_ok o1 = true /\ is_seq x1 = false /\ pf x1 = true /\
+  Forall (fun m => mem_ok pf m = true) rest /\ ws0 trail = true.
+Proof.
+  cbn [pf]. intros H. rewrite !andb_true_iff in H. destruct H as (((((H1 & H2) & H3) & H4) & H5) & H6).
+  apply negb_true_iff in H3. repeat split; try assumption.
+  clear - H5. induction rest as [|m r IH]; [constructor|].
+  apply andb_true_iff in H5 as [Hm Hr]. constructor; [exact Hm|now apply IH].
+Qed.
+
+Lemma cdepth_seq_inv lead o1 x1 rest trail d :
+  (cdepth (CSeq lead o1 x1 rest trail) <= S d)%nat ->
+  (cdepth x1 <= d)%nat /\ Forall (fun m : mem => (cdepth (snd m) <= d)%nat) rest.
+Proof.
+  cbn [cdepth]. intros H. apply le_S_n in H. revert H.
+  induction rest as [|m r IH]; intros H; [split; [exact H|constructor]|].
+  pose proof (Nat.le_max_l (cdepth (snd m)) ((fix go (rest : list mem) : nat := match rest with [] => cdepth x1 | m :: r => Nat.max (cdepth (snd m)) (go r) end) r)).
+  pose proof (Nat.le_max_r (cdepth (snd m)) ((fix go (rest : list mem) : nat := match rest with [] => cdepth x1 | m :: r => Nat.max (cdepth (snd m)) (go r) end) r)).
+  destruct (IH ltac:(lia)) as [Hx Hr]. split; [exact Hx|constructor; [lia|exact Hr]].
+Qed.
+
+Lemma print_parse_gen n : forall c, (cdepth c <= n)%nat -> pf c = true ->
+  (is_seq c = false -> forall fuel rest, (cdepth c <= fuel)%nat -> follow_ok rest = true ->
+     gp fuel false (print c ++ rest) = ROk (norm c) rest) /\
+  (is_seq c = true -> forall fuel rest, (cdepth c <= fuel)%nat -> end_ok rest = true ->
+     gp fuel true (print c ++ rest) = ROk (norm c) rest).
+Proof.
+  induction n as [|n IH]; intros c Hd Hpf; [pose proof (cdepth_pos c); lia|].
+  destruct c as [[[fn fw]|] l| |q| | | |lead o1 x1 rest trail]; cbn [pf] in Hpf; try discriminate.
+  - (* phrase *)
+    destruct l as [| |q b sp| | | |]; try discriminate. destruct sp; try discriminate.
+    split; [|discriminate]. intros _ fuel rest Hf Hr. cbn [cdepth] in Hf. destruct fuel as [|f]; [lia|].
+    cbn [gp print print_leaf norm norm_leaf option_map].
+    replace ((([] ++ quote_char q :: b ++ [quote_char q] ++ []) ++ rest)) with (quote_char q :: b ++ quote_char q :: rest)
+      by (cbn [app]; repeat rewrite app_nil_r; repeat rewrite <- app_assoc; reflexivity).
+    apply phrase_leaf; assumption.
+  - (* parentheses *)
+    apply andb_true_iff in Hpf as [Hs Hq]. cbn [cdepth] in Hd.
+    split; [|discriminate]. intros _ fuel rest Hf Hr. cbn [cdepth] in Hf. destruct fuel as [|f]; [lia|].
+    destruct (IH q ltac:(lia) Hq) as [_ Hseq].
+    cbn [gp print norm]. unfold leaf_body. cbn [app]. unfold_chars. ncmp.
+    rewrite <- app_assoc. cbn [app].
+    rewrite (Hseq Hs f (41 :: rest) ltac:(lia) eq_refl). ncmp. reflexivity.
+  - (* sequence *)
+    split; [discriminate|]. intros _ fuel tail Hf He. destruct fuel as [|f]; [pose proof (cdepth_pos (CSeq lead o1 x1 rest trail)); lia|].
+    destruct (pf_seq_inv _ _ _ _ _ Hpf) as (Hlead & Ho & Hns & Hx & Hm & Ht).
+    destruct (cdepth_seq_inv _ _ _ _ _ _ Hd) as [Hdx Hdr].
+    destruct (cdepth_seq_inv _ _ _ _ _ _ Hf) as [Hfx Hfr].
+    cbn [gp]. apply ast_seq_ok; try assumption.
+    + intros t Het. pose proof (cdepth_pos x1). destruct f as [|f']; [lia|]. cbn [gp]. now apply leaf_fail_end.
+    + intros r Hr. destruct (IH x1 Hdx Hx) as [Hatom _]. now apply Hatom.
+    + clear - IH Hm Hdr Hfr. induction rest as [|m r IHr]; [constructor|].
+      inversion Hm; inversion Hdr; inversion Hfr; subst. constructor; [|now apply IHr].
+      intros t Ht. destruct m as [[[[sep op] w] o] x]. cbn [snd mem_ok] in *.
+      match goal with H : _ && _ = true |- _ => repeat (apply andb_true_iff in H; destruct H as [H ?H]) end.
+      match goal with H : negb (is_seq x) = true |- _ => apply negb_true_iff in H end.
+      destruct (IH x ltac:(assumption) ltac:(assumption)) as [Hatom _]. now apply Hatom.
+Qed.
+
+(* the fuel of parse_ref is adequate: nesting depth is bounded by the length of the text *)
+Lemma print_rest_len (rest : list mem) m : In m rest -> (length (print (snd m)) <= length (print_rest rest))%nat.
+Proof.
+  induction rest as [|[[[[sep op] w] o] x] r IH]; [intros []|]. intros [<- | Hin]; cbn [print_rest snd].
+  - rewrite !app_length. lia.
+  - specialize (IH Hin). rewrite !app_length. lia.
+Qed.
+
+Lemma max_fold_le x1 (rest : list mem) B :
+  (cdepth x1 <= B)%nat -> (forall m, In m rest -> (cdepth (snd m) <= B)%nat) ->
+  ((fix go (rest : list mem) : nat := match rest with [] => cdepth x1 | m :: r => Nat.max (cdepth (snd m)) (go r) end) rest <= B)%nat.
+Proof.
+  intros Hx. induction rest as [|m r IH]; intros H; [exact Hx|].
+  apply Nat.max_lub; [apply H; now left|apply IH; intros m0 Hin; apply H; now right].
+Qed.
+
+Lemma depth_len n : forall c, (cdepth c <= n)%nat -> pf c = true ->
+  (is_seq c = false -> (cdepth c <= length (print c))%nat) /\
+  (is_seq c = true -> (cdepth c <= S (length (print c)))%nat).
+Proof.
+  induction n as [|n IH]; intros c Hd Hpf; [pose proof (cdepth_pos c); lia|].
+  destruct c as [[[fn fw]|] l| |q| | | |lead o1 x1 rest trail]; cbn [pf] in Hpf; try discriminate.
+  - destruct l as [| |q b sp| | | |]; try discriminate. destruct sp; try discriminate.
+    split; [|discriminate]. intros _. cbn [cdepth print print_leaf app length]. lia.
+  - apply andb_true_iff in Hpf as [Hs Hq]. cbn [cdepth] in Hd.
+    split; [|discriminate]. intros _. destruct (IH q ltac:(lia) Hq) as [_ Hseq]. specialize (Hseq Hs).
+    cbn [cdepth print length]. rewrite app_length. cbn [length]. lia.
+  - split; [discriminate|]. intros _.
+    destruct (pf_seq_inv _ _ _ _ _ Hpf) as (Hlead & Ho & Hns & Hx & Hm & Ht).
+    destruct (cdepth_seq_inv _ _ _ _ _ _ Hd) as [Hdx Hdr].
+    rewrite print_seq. rewrite !app_length.
+    assert (Hall : forall m, In m rest -> (cdepth (snd m) <= length (print_rest rest))%nat).
+    { intros m Hin. rewrite Forall_forall in Hm, Hdr. specialize (Hm m Hin). specialize (Hdr m Hin).
+      destruct m as [[[[sep op] w] o] x]. cbn [snd mem_ok] in *.
+      rewrite !andb_true_iff in Hm. destruct Hm as (((((_ & _) & _) & _) & Hsx) & Hpx). apply negb_true_iff in Hsx.
+      destruct (IH x Hdr Hpx) as [Hatom _]. specialize (Hatom Hsx).
+      pose proof (print_rest_len rest (sep, op, w, o, x) Hin). cbn [snd] in *. lia. }
+    destruct (IH x1 Hdx Hx) as [Hx1 _]. specialize (Hx1 Hns).
+    cbn [cdepth]. apply le_n_S. apply max_fold_le; [lia|].
+    intros m Hin. specialize (Hall m Hin). lia.
+Qed.
+
+(* print / parse round trip: every concrete query of the fragment, under every layout *)
+Theorem print_parse c :
+  pf c = true -> is_seq c = true -> parse_raw (print c) = Ok (norm c) /\ parse_ref (print c) = Ok (norm_top c).
+Proof.
+  intros Hpf Hs.
+  assert (Hraw : parse_raw (print c) = Ok (norm c)).
+  { destruct c as [| | | | | |lead o1 x1 rest trail]; try discriminate.
+    destruct (pf_seq_inv _ _ _ _ _ Hpf) as (Hlead & Ho & Hns & Hx & Hm & Ht).
+    set (c' := CSeq [] o1 x1 rest trail).
+    assert (Hpf' : pf c' = true).
+    { revert Hpf. unfold c'. cbn [pf]. rewrite !andb_true_iff. intros (((((H1 & H2) & H3) & H4) & H5) & H6). repeat split; assumption. }
+    assert (Hskip : skip_ms (print (CSeq lead o1 x1 rest trail)) = print c').
+    { unfold c'. rewrite !print_seq. cbn [app]. apply skip_ms_app; [exact Hlead|].
+      destruct (atom_head x1 Hx Hns) as (ch & t & Hp & Hc).
+      destruct o1 as [[]|]; try discriminate; cbn [occ_str app]; try reflexivity.
+      rewrite Hp. cbn [app]. apply nms_head. destruct Hc as [-> | [-> | ->]]; auto 10. }
+    unfold parse_raw. rewrite Hskip.
+    destruct (print_parse_gen (cdepth c') c' (le_n _) Hpf') as [_ Hseq].
+    destruct (depth_len (cdepth (CSeq lead o1 x1 rest trail)) _ (le_n _) Hpf) as [_ Hlen]. specialize (Hlen eq_refl).
+    assert (Hfuel : (cdepth c' <= ref_fuel (print (CSeq lead o1 x1 rest trail)))%nat).
+    { unfold ref_fuel. change (cdepth c') with (cdepth (CSeq lead o1 x1 rest trail)). lia. }
+    specialize (Hseq eq_refl _ [] Hfuel eq_refl). rewrite app_nil_r in Hseq. rewrite Hseq. reflexivity. }
+  split; [exact Hraw|]. unfold parse_ref. rewrite Hraw. reflexivity.
+Qed.
+
+(* non-vacuity: +"a b" AND ( 'c' OR "d" )   with assorted whitespace *)
+Example print_parse_example :
+  let c := CSeq [32] (Some Must) (CLit None (CPhrase QD [97;32;98] SNone))
+             [([32;9], Some And, [10], None,
+               CParen (CSeq [32] None (CLit None (CPhrase QS [99] SNone))
+                         [([13;32], Some Or, [], Some MustNot, CLit None (CPhrase QD [100] SNone))] [32]))] [9] in
+  pf c = true /\ is_seq c = true /\ wf c = true /\ parse_ref (print c) = Ok (norm_top c).
+Proof. vm_compute. repeat split; reflexivity. Qed.
